@@ -88,6 +88,11 @@ def cases(tier, seed, args):
                             fn=['fit', 'log_pdf'][(i // 8) % 2], L=[int(rng.integers(1, 4)) for _ in range(nlead)],
                             D=int(rng.integers(2, 4)), N=int(rng.integers(8, 16)), seed=int(rng.integers(1 << 30)),
                             saliency=bool(i % 3 == 0), degenerate_slice=bool(i % 7 == 6)))
+    if prop == 'C06':
+        # stack_parameters: the stacked model indexed at i equals the i-th input model (and dict round trips)
+        for i in range(8 if q else 40):
+            out.append(dict(t='stack_params', kind=['cacgmm', 'cwmm', 'vmfmm'][i % 3], n=int(rng.integers(2, 4)),
+                            K=int(rng.integers(2, 4)), D=int(rng.integers(2, 4)), N=int(rng.integers(10, 16)), seed=int(rng.integers(1 << 30))))
     return out
 
 
@@ -384,6 +389,37 @@ def _stack_dist(case):
     return recs
 
 
+def _stack_params(case):
+    from pb_bss.distribution.utils import stack_parameters
+    rng = np.random.default_rng(case['seed'])
+    kind, K, D, N = case['kind'], case['K'], case['D'], case['N']
+    models = []
+    for j in range(case['n']):
+        data = ml.make_data(rng, kind, [], K, D, N, regime='separable')
+        m, e = call(ml.fit, kind, data, ml.make_init(rng, [], K, N), 2, {})
+        if m is None:
+            return []
+        models.append(m)
+    st, exc = call(stack_parameters, models)
+    fp = f't=stack_params;model={kind}'
+    recs = []
+    if st is None:
+        return [ml.twin_record('slice', None, None, kind=kind, exc=exc, exc_clause='stack_raises', fp=fp, key=f'sp:{case["seed"]}')]
+    # dict round trip of the stacked model must reproduce it
+    rt, e2 = call(lambda: type(st).from_dict({k: (type(getattr(st, k)).from_dict(v) if isinstance(v, dict) else v)
+                                               for k, v in st.to_dict().items()}))
+    A = ml.model_fields(kind, st)
+    if rt is not None:
+        recs.append(ml.twin_record('same', A, ml.model_fields(kind, rt), kind=kind, fp=fp + ';dict_round_trip', key=f'sp:{case["seed"]}:rt'))
+    else:
+        recs.append(ml.twin_record('same', None, None, kind=kind, exc=e2, exc_clause='dict_round_trip_raises', fp=fp, key=f'sp:{case["seed"]}:rt'))
+    for j, m in enumerate(models):
+        recs.append(ml.twin_record('slice', A, ml.model_fields(kind, m), kind=kind, lead=[j], fp=fp, key=f'sp:{case["seed"]}:{j}'))
+    return recs
+
+
 def run_case(case):
+    if case['t'] == 'stack_params':
+        return _stack_params(case)
     return dict(gain_mm=_gain_mm, gain_dist=_gain_dist, perm_mm=_perm_mm, stack_mm=_stack_mm,
                 stack_dist=_stack_dist)[case['t']](case)
